@@ -64,6 +64,8 @@ TableMarks(tb, idv, d, prm) ==
   Mark("N_fallback", prm.excl # <<>> /\ \E r \in R : LET I == MemIdx(idv, tb[r].cid) IN
                          Filtered(d, I, prm) # I /\ Selected(d, I, prm) = I) \cup
   Mark("N_interp", \E r \in R : tb[r].b.v % 100 # 0) \cup
+  Mark("N_nearboundary", \E r \in R : LET q == IF tb[r].b.v <= 1000000 THEN 10000 ELSE 100000 IN
+                                         (tb[r].b.v % q) \in ((q - 10)..(q - 1)) \cup (1..10)) \cup
   Mark("N_above10k", \E r \in R : tb[r].b.v > 1000000) \cup
   Mark("N_floattie", \E r \in R : tb[r].b.d # 0) \cup
   Mark("N_4sig", Cardinality({r \in R : tb[r].okta >= 1}) >= 4) \cup
@@ -163,6 +165,7 @@ MsgFails(ev, post, tr) ==
   Chk("C01_SecondSCT", C01_SecondSCT(m)) \cup
   Chk("C01_ThirdBKN", C01_ThirdBKN(m)) \cup
   Chk("C01_Stands", C01_Stands(m, tb, prm)) \cup
+  Chk("C01_NotZeroOkta", C01_NotZeroOkta(m, tb, post.data, post.ids[F(ev.arg)], prm)) \cup
   Chk("C02_First", C02_First(m, tb, prm)) \cup
   Chk("C02_Ceiling", C02_Ceiling(m, tb, prm)) \cup
   Chk("C02_Listed", C02_Listed(m, tb)) \cup
